@@ -54,7 +54,7 @@ theorem wait_step (cfg : Cfg) (T : Rat) (st : St) (hr : Reach cfg st) (e : Ev)
           rw [hstep]; exact WaitSt.waiting hi hl hs hdue hq
         · have hm' : msgs.isEmpty = false := by simpa using hm
           have hstep : (step cfg st (.send sid' topic key msgs)).1 = (checkSendBatch cfg (enqueue st sid' topic key msgs)).1 := by
-            simp [step, hs', hm', doSend]
+            simp [step, hs', hm', hs, doSend]
           by_cases hc : thresholdMet cfg (enqueue st sid' topic key msgs) = true ∧ canDispatch (enqueue st sid' topic key msgs) = true
           · apply gone_of_empty
             rw [hstep]
